@@ -44,6 +44,8 @@ StackSetFailed(e) ==
                           LET pl == e.sources[k].places[q] IN
                           pl.stack >= 0 /\ pl.stack < Len(e.stacks) /\ pl.pos >= 0 /\ pl.pos < Len(e.stacks[pl.stack + 1].sources),
         rooted   |-> inRange => \A i \in DOMAIN e.stacks : Len(e.stacks[i].sources) >= 1 /\ e.stacks[i].sources[1] = 0,
+        \* the root is synthetic: no frame of any sample is source 0, whatever the frame is called
+        rootonly |-> inRange => \A i \in DOMAIN e.stacks : \A j \in 2..Len(e.stacks[i].sources) : e.stacks[i].sources[j] # 0,
         frames   |-> (inRange /\ Len(e.stacks) = Len(e.samples)) =>
                        \A i \in DOMAIN e.stacks :
                           LET want == StackFrames(e.samples[i], e.cfg)
